@@ -136,6 +136,13 @@ def roundtrip(g):
 
 def check(desc):
     fails = []
+    if desc.get("kind") == "handbuilt":
+        from vf.spaces import build_s4b
+
+        for f in roundtrip(build_s4b(desc)):
+            f["signature"] = "handbuilt:" + f["signature"]
+            fails.append(f)
+        return fails, any(b >= 0 for b in desc["backedge"]) or any(desc["targets"])
     if desc.get("kind") == "function":
         from numba_scfg.core.datastructures.byte_flow import ByteFlow
 
@@ -211,6 +218,20 @@ def jobs(tier):
 
     js = s1_jobs(tier, harness, quick_n5_max_edges=7)
     js = js[:2] if tier == "quick" else js[:3]
+    from vf.spaces import s4b_space, realise_s4b
+
+    def hb(E, ctx, aux):
+        desc = realise_s4b(E, aux)
+        ctx.current = desc
+        ctx.evaluations += 1
+        fails, nt = check(desc)
+        if nt:
+            ctx.nontrivial += 1
+        ctx.sample(desc, cap=1)
+        _emit(ctx, desc, fails)
+
+    js.append(Job("handbuilt-graphs-N3-with-declared-backedges", lambda: s4b_space(3), hb,
+                  bounds={"space": "S4b hand-built graphs (cycles without entry, unreachable parts, declared back edges)", "blocks": 3, "slots": 2}, budget_s=600))
     js.append(Job("bytecode-functions", xspace, fn_harness, bounds={"functions": len(EXTRA_SOURCES), "stages": [0, 1, 2, 3]}, budget_s=300))
     return js
 
